@@ -517,16 +517,32 @@ fn resolve_regions(
         last_address: usize,
     }
     impl Regions {
-        fn push(&mut self, type_registry: &TypeRegistry, region: Region) -> Option<()> {
-            let size = region.size(type_registry)?;
+        fn push(
+            &mut self,
+            type_registry: &TypeRegistry,
+            region: Region,
+        ) -> anyhow::Result<Option<()>> {
+            let Some(size) = region.size(type_registry) else {
+                return Ok(None);
+            };
             if size == 0 && region.type_ref.is_array() {
                 // zero-sized regions that are arrays are ignored
-                return Some(());
+                return Ok(Some(()));
             }
 
+            // No type can be larger than isize::MAX bytes
+            self.last_address = self
+                .last_address
+                .checked_add(size)
+                .filter(|end| isize::try_from(*end).is_ok())
+                .with_context(|| {
+                    format!(
+                        "field `{}` ends beyond the largest possible size of a type",
+                        region.name.as_deref().unwrap_or("_")
+                    )
+                })?;
             self.regions.push(region);
-            self.last_address += size;
-            Some(())
+            Ok(Some(()))
         }
     }
     let mut resolved = Regions::default();
@@ -547,7 +563,7 @@ fn resolve_regions(
     )?;
     if let Some(vftable_region) = vftable_region {
         if resolved
-            .push(&semantic.type_registry, vftable_region)
+            .push(&semantic.type_registry, vftable_region)?
             .is_none()
         {
             return Ok(None);
@@ -571,14 +587,14 @@ fn resolve_regions(
             };
             let padding_region = Region::unnamed_field(semantic.type_registry.padding_type(size));
             if resolved
-                .push(&semantic.type_registry, padding_region)
+                .push(&semantic.type_registry, padding_region)?
                 .is_none()
             {
                 return Ok(None);
             }
         }
 
-        if resolved.push(&semantic.type_registry, region).is_none() {
+        if resolved.push(&semantic.type_registry, region)?.is_none() {
             return Ok(None);
         }
     }
@@ -592,7 +608,7 @@ fn resolve_regions(
                     .padding_type(target_size - resolved.last_address),
             );
             if resolved
-                .push(&semantic.type_registry, padding_region)
+                .push(&semantic.type_registry, padding_region)?
                 .is_none()
             {
                 return Ok(None);
